@@ -225,22 +225,40 @@ def compare_setting(i: int, got, exp: dict) -> List[tuple]:
 def run_doc(specs: List[dict], mode: str, c: Counter, tag: str):
     """One document: the operation sequence on the real writer, then every oracle."""
     rp = {'kind': 'doc', 'specs': specs, 'mode': mode}
-    built = [build(s) for s in specs]
+    built_all = [(build(s), bool(s.get('reject'))) for s in specs]
     buf = io.StringIO()
+
+    def do_writes(w):
+        for (kw, _), rej in built_all:
+            if not rej:
+                w.write(**kw)
+                continue
+            # a record the serialiser cannot represent: the write must be refused and leave the document untouched
+            kw = dict(kw, scores={Pair.NS: Unserialisable(), Pair.EW: 0})
+            try:
+                w.write(**kw)
+            except Exception:  # noqa
+                c.inc('rejected_writes')
+            else:
+                raise _Accepted()
     try:
         if mode == 'with':
             with JsonLogWriter(buf) as w:
-                for kw, _ in built:
-                    w.write(**kw)
+                do_writes(w)
         else:
             w = JsonLogWriter(buf)
             w.open()
-            for kw, _ in built:
-                w.write(**kw)
+            do_writes(w)
             w.close()
+    except _Accepted:
+        return          # the writer accepted the odd value: nothing to compare against
     except Exception as e:  # noqa
         c.violate(f'write:{tag}', f'writing {len(specs)} record(s) raised {type(e).__name__}: {e}', rp)
         return
+    built = [b for b, rej in built_all if not rej]
+    if len(built) != len(specs):
+        tag = tag + '-with-rejected-write'
+    specs = [s for s in specs if not s.get('reject')]
     text = buf.getvalue()
     c.inc('evals')
     c.inc('documents')
@@ -281,6 +299,14 @@ def run_doc(specs: List[dict], mode: str, c: Counter, tag: str):
             for field, msg in compare_setting(i, g, exp):
                 c.violate(f'field:{field}', msg, rp)
     c.see('cls', (tag, len(specs)))
+
+
+class Unserialisable:
+    pass
+
+
+class _Accepted(Exception):
+    pass
 
 
 # ---- enumeration --------------------------------------------------------------------------------------------------
@@ -358,6 +384,14 @@ def run(tier, seed, workers):
     if tier == 'quick':
         triples = [t for t in triples if len(set(t)) == 3][::3] + [(0, 0, 0), (1, 1, 1)]
     docs += [('with', [pl[i], pl[j], pl[k]]) for i, j, k in triples]
+    # fault: a write that the serialiser refuses, at every position of sequences of length 1..3 (the accepted records must still form the document)
+    rej = dict(default_spec(seed + 9), reject=True)
+    for n in (0, 1, 2):
+        for pos in range(n + 1):
+            for m in ('manual', 'with'):
+                seq = [pl[(pos + i) % len(pl)] for i in range(n)]
+                docs.append((m, seq[:pos] + [rej] + seq[pos:]))
+    docs.append(('manual', [rej, rej, pl[0], rej]))
     if tier == 'thorough':
         # all pairs of the small menus on one record
         extra = []
@@ -373,11 +407,11 @@ def run(tier, seed, workers):
     nd = tot.get('documents')
     cov = {
         'states': nd, 'transitions': tot.get('records') + 2 * nd, 'traces_validated_against_impl': nd,
-        'evaluations': nd, 'distinct_nontrivial': tot.distinct('cls'), 'documents': nd, 'records_written': tot.get('records'),
+        'evaluations': nd, 'distinct_nontrivial': tot.distinct('cls'), 'documents': nd, 'records_written': tot.get('records'), 'refused_writes_injected': tot.get('rejected_writes'),
         'rule': 'operation sequences open, write^k, close (k = 0..3; manual and context-manager) of JsonLogWriter on an in-memory stream; records: '
                 'all 105 bid x doubling contracts + both passed-out encodings x 4 vul, 4 declarers x 4 vul x 4 dealers, auction menu (empty .. 319 calls), '
                 '0..13 recorded tricks, dda on/off, names and ids over a Unicode menu (empty, quote, backslash, newline, tab, non-BMP, lone surrogate, U+2028, '
-                'JSON-looking text), every Scoring value, extreme scores; ordered pairs and triples of a 5-record pool; oracles: json.loads, Draft-7 validation '
+                'JSON-looking text), every Scoring value, extreme scores; ordered pairs and triples of a 5-record pool; a refused write (unserialisable value) injected at every position of sequences of length <= 3; oracles: json.loads, Draft-7 validation '
                 'against the shipped log schema (cross-file $ref via a registry), parse_board_logs field by field as value objects, parse_board_settings on the same text',
         'samples': [{'k': 2, 'records': ['7NTXX by W, 13 tricks, dda, id x"y', 'passed out, id ]}']}, {'k': 0, 'text': '{"logs": [\n]}'},
                     {'k': 1, 'names': ['', '\\ud800', '', '\\ud800'], 'contract': '4SX', 'tricks': 0}],
